@@ -208,24 +208,54 @@ func parseRaceLog(text string) (goat []raceReport, other int) {
 		// the two access stacks come first; goroutine creation stacks follow
 		sections := strings.Split(b, "\n\n")
 		var frames []string
+		harnessAccess := false
 		for _, sec := range sections {
 			head := strings.TrimSpace(sec)
 			if !(strings.HasPrefix(head, "Write at") || strings.HasPrefix(head, "Read at") || strings.HasPrefix(head, "Previous write at") || strings.HasPrefix(head, "Previous read at") || strings.HasPrefix(head, "Previous atomic") || strings.HasPrefix(head, "Atomic")) {
 				continue
 			}
-			for _, ln := range strings.Split(sec, "\n") {
+			// the access itself is the innermost frame that is not the Go runtime / standard library:
+			// if that is the harness (package main, verifsim) the access is the harness's own, whatever
+			// application frames appear further down the stack (the harness is called from inside the
+			// application: fake engine, mempool wrapper)
+			for _, ln := range strings.Split(sec, "\n")[1:] {
 				ln = strings.TrimSpace(ln)
-				if strings.HasPrefix(ln, "github.com/goatnetwork/goat/") && !strings.Contains(ln, "/verifsim/") {
+				if ln == "" || strings.HasPrefix(ln, "/") {
+					continue // file:line of the previous frame
+				}
+				if strings.HasPrefix(ln, "runtime.") || strings.HasPrefix(ln, "sync.") || strings.HasPrefix(ln, "sync/atomic.") || strings.HasPrefix(ln, "reflect.") || strings.HasPrefix(ln, "bytes.") || strings.HasPrefix(ln, "strings.") || strings.HasPrefix(ln, "slices.") || strings.HasPrefix(ln, "maps.") || strings.HasPrefix(ln, "encoding/") || strings.HasPrefix(ln, "math/big.") {
+					continue
+				}
+				if strings.HasPrefix(ln, "main.") || strings.Contains(ln, "/verifsim/") {
+					harnessAccess = true
+					break
+				}
+				if strings.HasPrefix(ln, "github.com/goatnetwork/goat/") {
 					if j := strings.Index(ln, "("); j > 0 {
 						ln = ln[:j]
 					}
 					frames = append(frames, ln)
 					break
 				}
+				// a dependency (cosmos-sdk, go-ethereum, ...): keep looking for who called it
+				for _, ln2 := range strings.Split(sec, "\n") {
+					ln2 = strings.TrimSpace(ln2)
+					if strings.HasPrefix(ln2, "main.") || strings.Contains(ln2, "/verifsim/") {
+						break
+					}
+					if strings.HasPrefix(ln2, "github.com/goatnetwork/goat/") {
+						if j := strings.Index(ln2, "("); j > 0 {
+							ln2 = ln2[:j]
+						}
+						frames = append(frames, ln2)
+						break
+					}
+				}
+				break
 			}
 		}
-		if len(frames) == 0 {
-			other++
+		if len(frames) == 0 || harnessAccess {
+			other++ // no application code involved, or one of the two accesses is the harness's own
 			continue
 		}
 		sort.Strings(frames)
